@@ -124,4 +124,220 @@ theorem quit_only_on_request (ui ui' : UI) (k : Key) (rows : Nat) (hd : Nat → 
 theorem stats_unwrap_safe {P D : Type} (g : Geo P D) (c : Coor P D) (h : C13.CoorInv g c) (hk : c.kd.isSome = true) : c.pos.isSome = true := by
   rw [h.1]; exact hk
 
+/-! ## whole histories: draw / event batches, any table sizes, until quit -/
+
+def selVal (ui : UI) : Nat := ui.selected.getD 0
+
+def ButtonsOk (buttons : Option (Rect × Rect × Rect)) : Prop :=
+  ∀ b0 b1 b2, buttons = some (b0, b1, b2) → b0.y + b0.h ≤ u16Max ∧ b1.y + b0.h ≤ u16Max ∧ b2.y + b0.h ≤ u16Max
+
+def evCount : List Iter → Nat
+  | [] => 0
+  | it :: rest => it.events.length + evCount rest
+
+theorem char_sel (ui : UI) (c : Char) (ctrl : Bool) : (handleChar ui c ctrl).selected = ui.selected := by
+  unfold handleChar
+  simp only []
+  repeat (first | rfl | split)
+
+theorem key_sel (ui ui' : UI) (k : Key) (rows : Nat) (hd : Nat → Bool) (h : handleKey ui k rows hd = .ok ui') :
+    selVal ui' ≤ selVal ui + 1 := by
+  unfold handleKey at h
+  simp only [] at h
+  split at h
+  all_goals first
+    | (cases h; exact Nat.le_succ _)
+    | skip
+  · next c ctrl => cases h; unfold selVal; rw [char_sel]; exact Nat.le_succ _
+  all_goals (repeat' (split at h))
+  all_goals first
+    | (cases h; done)
+    | (cases h; exact Nat.le_succ _)
+    | (cases h; unfold selVal; simp only [Option.getD, *]; (repeat' split) <;> simp_all <;> omega)
+
+theorem mouse_sel (ui ui' : UI) (m : Mouse) (b : Option (Rect × Rect × Rect)) (lb : Nat) (h : handleMouse ui m b lb = .ok ui') :
+    ui'.selected = ui.selected := by
+  unfold handleMouse at h
+  cases m with
+  | down col row =>
+    simp only [] at h
+    repeat (first | (cases h; done) | (cases h; (repeat (first | rfl | split))) | split at h)
+  | drag col row =>
+    simp only [] at h
+    repeat (first | (cases h; done) | (cases h; (repeat (first | rfl | split))) | split at h)
+  | up => cases h; rfl
+  | scrollUp => cases h; rfl
+  | scrollDown => cases h; rfl
+  | other => cases h; rfl
+
+theorem event_sel (ui ui' : UI) (e : Event) (rows : Nat) (hd : Nat → Bool) (b : Option (Rect × Rect × Rect)) (lb : Nat)
+    (h : handleEvent ui e rows hd b lb = .ok ui') : selVal ui' ≤ selVal ui + 1 := by
+  cases e with
+  | key k => exact key_sel ui ui' k rows hd h
+  | mouse m => unfold selVal; rw [mouse_sel ui ui' m b lb h]; exact Nat.le_succ _
+  | resize => cases h; exact Nat.le_succ _
+
+theorem clamp_sel (ui : UI) (rows : Nat) : selVal (drawClamp ui rows) ≤ selVal ui := by
+  unfold drawClamp
+  by_cases ht : ui.tab = .airplanes
+  · rw [if_pos ht]
+    cases hs : ui.selected with
+    | none => simp only [hs]; exact Nat.le_refl _
+    | some s =>
+      simp only []
+      by_cases hge : s ≥ rows
+      · rw [if_pos hge]
+        by_cases h0 : rows = 0
+        · rw [if_pos h0]; unfold selVal; simp only [hs, Option.getD]; omega
+        · rw [if_neg h0]; unfold selVal; simp only [hs, Option.getD]; omega
+      · rw [if_neg hge]; exact Nat.le_refl _
+  · rw [if_neg ht]; exact Nat.le_refl _
+
+theorem selOk_of_lt (ui : UI) (h : selVal ui < usizeMax) : SelOk ui := by
+  intro s hs; unfold selVal at h; rw [hs] at h; exact h
+
+theorem event_total (ui : UI) (e : Event) (rows : Nat) (hd : Nat → Bool) (b : Option (Rect × Rect × Rect)) (lb : Nat)
+    (h : selVal ui < usizeMax) (hb : ButtonsOk b) : (handleEvent ui e rows hd b lb).NoPanic := by
+  cases e with
+  | key k => exact key_total ui k rows hd (selOk_of_lt ui h)
+  | mouse m => exact mouse_total ui m b lb hb
+  | resize => trivial
+
+/-- a batch of events: no panic, and the selection grows by at most one per event -/
+theorem batch_total (es : List Event) : ∀ (ui : UI) (rows : Nat) (hd : Nat → Bool) (b : Option (Rect × Rect × Rect)) (lb : Nat),
+    selVal ui + es.length < usizeMax → ButtonsOk b →
+    (handleBatch ui es rows hd b lb).NoPanic ∧ ∀ ui', handleBatch ui es rows hd b lb = .ok ui' → selVal ui' ≤ selVal ui + es.length := by
+  induction es with
+  | nil => intro ui rows hd b lb _ _; exact ⟨trivial, fun ui' h => by cases h; exact Nat.le_refl _⟩
+  | cons e rest ih =>
+    intro ui rows hd b lb h hb
+    simp only [List.length_cons] at h
+    have he := event_total ui e rows hd b lb (by omega) hb
+    unfold handleBatch
+    cases hr : handleEvent ui e rows hd b lb with
+    | ok u1 =>
+      have h1 := event_sel ui u1 e rows hd b lb hr
+      have := ih u1 rows hd b lb (by omega) hb
+      refine ⟨this.1, fun ui' h' => ?_⟩
+      have := this.2 ui' h'
+      simp only [List.length_cons]; omega
+    | err x => exact ⟨trivial, fun ui' h' => by cases h'⟩
+    | panic p => rw [hr] at he; exact absurd he (fun x => x)
+
+/-- **no history of operator actions crashes the handlers**: for every sequence of loop iterations - any number of rows at each draw
+(also none, also shrinking), any batches of keys / mouse events / resizes, touchscreen on or off - with fewer than 2^64 events in
+total, the run ends without a panic. -/
+theorem run_total (its : List Iter) : ∀ (ui : UI), selVal ui + evCount its < usizeMax → (∀ it ∈ its, ButtonsOk it.buttons) →
+    (runIters ui its).NoPanic := by
+  induction its with
+  | nil => intro ui _ _; trivial
+  | cons it rest ih =>
+    intro ui h hb
+    unfold evCount at h
+    have hc := clamp_sel ui it.rows
+    have hbt := batch_total it.events (drawClamp ui it.rows) it.rows it.hd it.buttons it.lb (by omega) (hb it (List.mem_cons_self))
+    unfold runIters
+    cases hr : handleBatch (drawClamp ui it.rows) it.events it.rows it.hd it.buttons it.lb with
+    | ok u1 =>
+      simp only []
+      split
+      · trivial
+      · have := hbt.2 u1 hr
+        exact ih u1 (by omega) (fun x hx => hb x (List.mem_cons_of_mem _ hx))
+    | err x => trivial
+    | panic p => rw [hr] at hbt; exact absurd hbt.1 (fun x => x)
+
+/-- the run stops only on request: while no `q` / Ctrl-C key is among the events, the run ends with `quit = false` -/
+def noQuitKey : Event → Prop
+  | .key (.char c ctrl) => c ≠ 'q' ∧ ¬ (c = 'c' ∧ ctrl = true)
+  | _ => True
+
+theorem mouse_quit (ui ui' : UI) (m : Mouse) (b : Option (Rect × Rect × Rect)) (lb : Nat) (h : handleMouse ui m b lb = .ok ui') :
+    ui'.quit = ui.quit := by
+  unfold handleMouse at h
+  cases m with
+  | down col row =>
+    simp only [] at h
+    repeat (first | (cases h; done) | (cases h; (repeat (first | rfl | split))) | split at h)
+  | drag col row =>
+    simp only [] at h
+    repeat (first | (cases h; done) | (cases h; (repeat (first | rfl | split))) | split at h)
+  | up => cases h; rfl
+  | scrollUp => cases h; rfl
+  | scrollDown => cases h; rfl
+  | other => cases h; rfl
+
+theorem event_quit (ui ui' : UI) (e : Event) (rows : Nat) (hd : Nat → Bool) (b : Option (Rect × Rect × Rect)) (lb : Nat)
+    (h : handleEvent ui e rows hd b lb = .ok ui') (hq : noQuitKey e) : ui'.quit = ui.quit := by
+  cases e with
+  | key k =>
+    refine quit_only_on_request ui ui' k rows hd h ?_ ?_
+    · intro ctrl hk; subst hk; exact hq.1 rfl
+    · intro hk; subst hk; exact hq.2 ⟨rfl, rfl⟩
+  | mouse m => exact mouse_quit ui ui' m b lb h
+  | resize => cases h; rfl
+
+theorem batch_quit (es : List Event) : ∀ (ui ui' : UI) (rows : Nat) (hd : Nat → Bool) (b : Option (Rect × Rect × Rect)) (lb : Nat),
+    handleBatch ui es rows hd b lb = .ok ui' → (∀ e ∈ es, noQuitKey e) → ui'.quit = ui.quit := by
+  induction es with
+  | nil => intro ui ui' rows hd b lb h _; cases h; rfl
+  | cons e rest ih =>
+    intro ui ui' rows hd b lb h hq
+    unfold handleBatch at h
+    cases hr : handleEvent ui e rows hd b lb with
+    | ok u1 =>
+      rw [hr] at h
+      rw [ih u1 ui' rows hd b lb h (fun x hx => hq x (List.mem_cons_of_mem _ hx))]
+      exact event_quit ui u1 e rows hd b lb hr (hq e List.mem_cons_self)
+    | err x => rw [hr] at h; cases h
+    | panic p => rw [hr] at h; cases h
+
+theorem clamp_quit (ui : UI) (rows : Nat) : (drawClamp ui rows).quit = ui.quit := by
+  unfold drawClamp; repeat (first | rfl | split)
+
+/-- **the client keeps running until quit is requested**: a history without `q` / Ctrl-C never sets the quit flag -/
+theorem run_keeps_running (its : List Iter) : ∀ (ui ui' : UI), ui.quit = false → (∀ it ∈ its, ∀ e ∈ it.events, noQuitKey e) →
+    runIters ui its = .ok ui' → ui'.quit = false := by
+  induction its with
+  | nil => intro ui ui' h _ hr; cases hr; exact h
+  | cons it rest ih =>
+    intro ui ui' h hq hr
+    unfold runIters at hr
+    cases hb : handleBatch (drawClamp ui it.rows) it.events it.rows it.hd it.buttons it.lb with
+    | ok u1 =>
+      rw [hb] at hr
+      simp only [] at hr
+      have e1 := batch_quit it.events _ u1 _ _ _ _ hb (hq it List.mem_cons_self)
+      rw [clamp_quit, h] at e1
+      rw [e1] at hr
+      exact ih u1 ui' e1 (fun x hx => hq x (List.mem_cons_of_mem _ hx)) hr
+    | err x => rw [hb] at hr; cases hr
+    | panic p => rw [hb] at hr; cases hr
+
+/-- non-vacuity: a concrete history on an empty table (select, select, Enter, tab switches) runs to a state -/
+example : (runIters {} [⟨0, fun _ => false, none, 1, [.key (.f 3), .key .down, .key .down, .key .enter]⟩,
+                        ⟨2, fun _ => true, none, 1, [.key .down, .key .enter, .mouse (.drag 20 9), .mouse (.drag 22 10)]⟩]).isOk = true := by decide
+
+/-- **whenever `main` exits, the terminal is as it was found**: cooked, mouse reporting off, cursor visible - on every exit path
+(quit while waiting for the connection, quit in the loop, disconnect) -/
+theorem exit_restores_terminal (waitKeys : List Key) (connects : Bool) (its : List Iter) (disc : Bool) (t : Term)
+    (h : mainRun {} waitKeys connects its disc = .ok (some t)) : t = {} := by
+  unfold mainRun at h
+  simp only [] at h
+  split at h
+  · cases h; rfl
+  · split at h
+    · cases h
+    · split at h
+      · split at h
+        · cases h; rfl
+        · cases h
+      · cases h
+      · cases h
+
+/-- and `main` exits when quit is requested while it waits for the connection -/
+theorem quit_while_waiting (waitKeys : List Key) (connects : Bool) (its : List Iter) (disc : Bool) (h : waitKeys.any waitQuit = true) :
+    mainRun {} waitKeys connects its disc = .ok (some {}) := by
+  unfold mainRun; simp only [h, if_true]; rfl
+
 end Adsb.C17
